@@ -602,6 +602,88 @@ func mdsRespell(r *RNG, xs []string) string {
 	return strings.Join(out, "|")
 }
 
+// mdsMult re-writes a stored list keeping (most of) its distinct entries but with other
+// MULTIPLICITIES: nothing rejects an id / address text that is listed more than once (contract
+// specification ids and owners of a specification, data access of a scope), so "the stored content
+// names X" does not change when X is listed twice instead of once, or once instead of three times.
+// Every distinct entry is listed 1, 2 or 3 times (now and then dropped), in a shuffled order; an
+// entry that was stored more than once is listed fewer times (but still listed) more often than not.
+func mdsMult(r *RNG, xs []string, keepOne bool) string {
+	if len(xs) == 0 {
+		return "-"
+	}
+	var distinct []string
+	cnt := map[string]int{}
+	for _, x := range xs {
+		if cnt[x] == 0 {
+			distinct = append(distinct, x)
+		}
+		cnt[x]++
+	}
+	var out []string
+	for _, x := range distinct {
+		m := 1
+		switch k := r.Intn(100); {
+		case k < 8:
+			m = 0
+		case k < 55:
+			m = 1
+		case k < 85:
+			m = 2
+		default:
+			m = 3
+		}
+		if cnt[x] > 1 && r.Chance(60) {
+			m = 1 + r.Intn(cnt[x]-1) // fewer, still at least once
+		}
+		for i := 0; i < m; i++ {
+			out = append(out, x)
+		}
+	}
+	if len(out) == 0 {
+		if !keepOne {
+			return "-"
+		}
+		out = append(out, Pick(r, distinct))
+	}
+	for i := len(out) - 1; i > 0; i-- {
+		j := r.Intn(i + 1)
+		out[i], out[j] = out[j], out[i]
+	}
+	return strings.Join(out, "|")
+}
+
+// mdsRepeat lists some entries of a "|" list a second or third time (in place and at the end).
+func mdsRepeat(r *RNG, l string) string {
+	if l == "-" || l == "" {
+		return l
+	}
+	xs := strings.Split(l, "|")
+	var out []string
+	for _, x := range xs {
+		out = append(out, x)
+		if r.Chance(30) {
+			out = append(out, x)
+		}
+	}
+	if r.Chance(40) {
+		out = append(out, Pick(r, xs))
+	}
+	return strings.Join(out, "|")
+}
+
+// mdsHasRepeat says whether a "|" list names an entry more than once.
+func mdsHasRepeat(l string) bool {
+	seen := map[string]bool{}
+	for _, x := range strings.Split(l, "|") {
+		if seen[x] {
+			return true
+		}
+		seen[x] = true
+	}
+	return false
+}
+
 // mdsSnap is what the generator looks at to aim ops at existing entries (read from the real keeper).
 type mdsSnap struct {
 	scopes   []string
@@ -750,6 +832,15 @@ func (e *mdsEnv) genOp(r *RNG, boot bool, out *Out) string {
 			out.Count("gen:wcspec:respell")
 			return "wcspec " + c + " owners=" + mdsRespell(r, sn.csOwners[c])
 		}
+		if aimed && len(sn.cspecs) > 0 && r.Chance(25) {
+			// rewrite a stored contract specification with its owners listed other numbers of times
+			c = Pick(r, sn.cspecs)
+			out.Count("gen:wcspec:multiplicity")
+			return "wcspec " + c + " owners=" + mdsMult(r, sn.csOwners[c], true)
+		}
+		if r.Chance(12) {
+			return "wcspec " + c + " owners=" + mdsRepeat(r, mdsAddrSubset(r, false, 8))
+		}
 		return "wcspec " + c + " owners=" + mdsAddrSubset(r, r.Chance(4), 8)
 	case k < 110:
 		return "wrspec " + c + " " + n
@@ -758,6 +849,29 @@ func (e *mdsEnv) genOp(r *RNG, boot bool, out *Out) string {
 			p = Pick(r, sn.sspecs)
 			out.Count("gen:wsspec:respell")
 			return "wsspec " + p + " owners=" + mdsRespell(r, sn.ssOwners[p]) + " cspecs=" + JoinOr(sn.ssCSpecs[p], "|")
+		}
+		if aimed && len(sn.sspecs) > 0 && r.Chance(40) {
+			// rewrite a stored scope specification with the entries of its contract-specification
+			// list (and/or its owners) listed other numbers of times, in another order
+			p = Pick(r, sn.sspecs)
+			out.Count("gen:wsspec:multiplicity")
+			owners, cs := strings.Join(sn.ssOwners[p], "|"), JoinOr(sn.ssCSpecs[p], "|")
+			if len(sn.ssCSpecs[p]) == 0 || r.Chance(30) {
+				owners = mdsMult(r, sn.ssOwners[p], true)
+			}
+			if len(sn.ssCSpecs[p]) > 0 && r.Chance(85) {
+				cs = mdsMult(r, sn.ssCSpecs[p], false)
+			}
+			return "wsspec " + p + " owners=" + owners + " cspecs=" + cs
+		}
+		if r.Chance(25) {
+			// a contract specification (an owner) listed more than once: nothing rejects that
+			out.Count("gen:wsspec:repeated-entries")
+			owners := mdsAddrSubset(r, false, 8)
+			if r.Chance(25) {
+				owners = mdsRepeat(r, owners)
+			}
+			return "wsspec " + p + " owners=" + owners + " cspecs=" + mdsRepeat(r, mdsSubset(r, mdsCSpecs, false, 8))
 		}
 		return "wsspec " + p + " owners=" + mdsAddrSubset(r, r.Chance(4), 8) + " cspecs=" + mdsSubset(r, mdsCSpecs, true, 8)
 	case k < 290:
@@ -787,8 +901,18 @@ func (e *mdsEnv) genOp(r *RNG, boot bool, out *Out) string {
 			}
 			return "wscope " + s + " spec=" + sn.spec[s] + " owners=" + owners + " da=" + da + " vo=" + vo + " mills=" + mills
 		}
+		if aimed && r.Chance(12) && len(sn.owners[s]) > 0 && len(sn.da[s]) > 0 {
+			// the same scope with its data-access addresses listed other numbers of times
+			out.Count("gen:wscope:multiplicity")
+			return "wscope " + s + " spec=" + sn.spec[s] + " owners=" + strings.Join(sn.owners[s], "|") +
+				" da=" + mdsMult(r, sn.da[s], false) + " vo=" + vo + " mills=" + mills
+		}
+		da := mdsAddrSubset(r, true, 6)
+		if r.Chance(10) {
+			da = mdsRepeat(r, da)
+		}
 		return "wscope " + s + " spec=" + p + " owners=" + mdsAddrSubset(r, r.Chance(3), 4) +
-			" da=" + mdsAddrSubset(r, true, 6) + " vo=" + vo + " mills=" + mills
+			" da=" + da + " vo=" + vo + " mills=" + mills
 	case k < 390:
 		name := "-"
 		if r.Chance(75) {
@@ -834,12 +958,20 @@ func (e *mdsEnv) genOp(r *RNG, boot bool, out *Out) string {
 	case k < 745:
 		if aimed {
 			// addresses (spellings) not in the list yet: other accounts, or a listed account's other spelling
-			return "addda " + s + " " + mdsPickFew(r, mdsMinus(mdsSpell, sn.da[s]))
+			l := mdsPickFew(r, mdsMinus(mdsSpell, sn.da[s]))
+			if r.Chance(15) {
+				l = mdsRepeat(r, l)
+			}
+			return "addda " + s + " " + l
 		}
 		return "addda " + s + " " + mdsAddrSubset(r, r.Chance(5), 10)
 	case k < 780:
 		if aimed {
-			return "rmda " + s + " " + mdsPickSome(r, sn.da[s])
+			l := mdsPickSome(r, sn.da[s])
+			if r.Chance(15) {
+				l = mdsRepeat(r, l)
+			}
+			return "rmda " + s + " " + l
 		}
 		return "rmda " + s + " " + mdsAddrSubset(r, r.Chance(5), 10)
 	case k < 815:
@@ -881,8 +1013,20 @@ func (e *mdsEnv) genOp(r *RNG, boot bool, out *Out) string {
 	case k < 958:
 		return "drspec " + c + " " + n
 	case k < 970:
+		if aimed && len(sn.sspecs) > 0 && len(sn.cspecs) > 0 {
+			p = Pick(r, sn.sspecs)
+			if free := mdsMinus(sn.cspecs, sn.ssCSpecs[p]); len(free) > 0 && r.Chance(70) {
+				c = Pick(r, free)
+			}
+		}
 		return "addcs " + c + " " + p
 	case k < 982:
+		if aimed && len(sn.sspecs) > 0 {
+			p = Pick(r, sn.sspecs)
+			if len(sn.ssCSpecs[p]) > 0 && r.Chance(80) {
+				c = Pick(r, sn.ssCSpecs[p])
+			}
+		}
 		return "rmcs " + c + " " + p
 	case k < 992:
 		return "addnav " + s
@@ -902,10 +1046,10 @@ func mdsBootstrap(r *RNG) []string {
 	ops := []string{
 		"wcspec c1 owners=" + sp("A"), "wcspec c2 owners=" + sp("A") + "|" + sp("B"),
 		"wrspec c1 n1", "wrspec c1 n2", "wrspec c2 n1", "wrspec c2 n3",
-		"wsspec p1 owners=" + sp("A") + " cspecs=c1|c2",
+		"wsspec p1 owners=" + sp("A") + " cspecs=" + Pick(r, []string{"c1|c2", "c1|c2", "c1|c2", "c1|c1|c2", "c2|c1|c2", "c1|c2|c2|c1"}),
 	}
 	if r.Bool() {
-		ops = append(ops, "wsspec p2 owners="+sp("B")+"|"+sp("C")+" cspecs=c1")
+		ops = append(ops, "wsspec p2 owners="+sp("B")+"|"+sp("C")+" cspecs="+Pick(r, []string{"c1", "c1", "c1|c1", "c2|c1|c1"}))
 	}
 	da := sp("C")
 	if r.Chance(20) {
@@ -937,6 +1081,11 @@ func driveMdStore(t *testing.T, rng *RNG, n int, out *Out) {
 			out.Count("op:" + kind)
 			if strings.Contains(op, "^") {
 				out.Count("gen:spelling:upper-case:" + kind)
+			}
+			for _, w := range strings.Fields(op)[1:] {
+				if i := strings.Index(w, "="); strings.Contains(w, "|") && mdsHasRepeat(w[i+1:]) {
+					out.Count("gen:repeated-entry:" + kind + ":" + strings.TrimSuffix(w[:i+1], "="))
+				}
 			}
 			out.Count("res:" + strings.Fields(res)[0])
 			out.Count("res:" + kind + ":" + strings.Fields(res)[0])
